@@ -8,6 +8,7 @@ use crate::selection_set::Selection;
 use crate::selection_set::SelectionSet;
 use crate::ty::Ty;
 use crate::DocumentBuilder;
+use crate::MAX_SELECTION_SET_DEPTH;
 use apollo_compiler::ast;
 use apollo_compiler::coordinate::TypeAttributeCoordinate;
 use apollo_compiler::Node;
@@ -188,7 +189,21 @@ impl DocumentBuilder<'_> {
             .expect("an object type must be added on the stack")
             .fields_def();
 
-        let chosen_field_def = self.u.choose(fields_defs)?.clone();
+        let chosen_field_def = if self.selection_set_depth >= MAX_SELECTION_SET_DEPTH {
+            // The selection set of a field of composite type would nest
+            // deeper than the maximum depth: only leaf fields qualify, and
+            // `__typename` is there for a type that has none.
+            let leaf_fields_defs: Vec<&FieldDef> = fields_defs
+                .iter()
+                .filter(|field_def| !self.is_composite_ty(&field_def.ty))
+                .collect();
+            if leaf_fields_defs.is_empty() {
+                return Ok(Field::typename());
+            }
+            (*self.u.choose(&leaf_fields_defs)?).clone()
+        } else {
+            self.u.choose(fields_defs)?.clone()
+        };
 
         let name = chosen_field_def.name.clone();
         let coord = TypeAttributeCoordinate {
